@@ -486,7 +486,7 @@ class ODataParser(Parser):
             new_owner = self._prepend_owner(p[0], p[1].owner)
             return ast.CollectionLambda(new_owner, p[1].operator, p[1].lambda_)
         else:
-            return ast.Attribute(p[0], p[1].name)
+            return ast.Attribute(p[0], p[1].full_name())
 
     @_("ODATA_IDENTIFIER")
     def entity_navigation_property(self, p):
@@ -703,7 +703,7 @@ class ODataParser(Parser):
         while isinstance(path, ast.Attribute):
             names.append(path.attr)
             path = path.owner
-        names.append(path.name)
+        names.append(path.full_name())
 
         owner: Union[ast.Identifier, ast.Attribute] = root
         for name in reversed(names):
